@@ -51,6 +51,22 @@ CLAIMED = {
         note=('Trusts numpy/scipy; single-threaded BLAS so that same-process repeats are bitwise equal (re-validated by selftest-determinism). '
               'Interleaving is at public-API-call granularity (lentil has no threads or locks; pre-emption inside a call would test a '
               'thread-safety property nobody stated). cosmic_rays and smear(angle=None), which consume the global RNG by design, are exercised under C18.')),
+    'C15': dict(
+        design='7.5',
+        text=('Seeded deterministic simulation of a classical stateful object: an editor applies histories (4-25 steps) of '
+              'crop/trim/pad/append(copy or in place)/resample/to to 1-3 spectra (uniform and non-uniform grids, unitless and flux-density '
+              'values, all four wavelength units) while a reader (same or second caller) issues integrate/bin/sample and composite '
+              'linearity/additivity checks between any two edits; about 30% of edits are ones that must be refused (unsorted, duplicated or '
+              'non-positive resample grid, touching/overlapping append, bad unit or method) -- the library\'s analogue of a crash between two '
+              'writes -- and accepted crops/trims/pads are duplicated. After EVERY step, accepted or refused, every spectrum must be '
+              'well-formed (strictly increasing positive wavelengths, one value per wavelength, asarray() usable); each edit\'s post-state is '
+              'predicted by a list model from the object\'s own public pre-state (closed-range crop, first-to-last-above-tolerance trim, '
+              'pad only outside and old samples untouched, append = concatenation, resample = interpolation of old samples, refused edit = '
+              'unchanged); trapezoid integration is compared with the trapezoid sum, checked for linearity and additivity at sample points; '
+              'bins are checked for count, sign, exactness on linear data and power preservation. Exploration.'),
+        note=('Arguments are generated exactly on or clearly between samples so no verdict depends on rounding. Empty-result crops, '
+              'normalising a zero total (0/0) and Simpson binning on non-uniform centres/data are outside the statement and not judged. '
+              'scipy.integrate.simpson is trusted as reference for Simpson totals.')),
 }
 
 NA = {
